@@ -39,19 +39,51 @@ structure ImgHdr where
   icc : Option (List Bool) := none
   deriving Repr, Inhabited
 
+/-- greedy LZ77 parse of the encoded ICC bytes (`dist_multiplier = 0`, distance = value + 1).
+`overlong`: a copy from the very first symbol is written with a distance larger than the number
+of symbols decoded so far (legal: the decoder clamps it to "from symbol 0"). -/
+def iccLzItems (overlong : Bool) (data : Array Nat) : List Item :=
+  let ctxAt := fun (i : Nat) =>
+    Jxl.Icc.getIccCtx i (if i ≥ 1 then data.getD (i - 1) 0 else 0) (if i ≥ 2 then data.getD (i - 2) 0 else 0)
+  let rec go (fuel i : Nat) : List Item :=
+    match fuel with
+    | 0 => []
+    | fuel + 1 =>
+      if i ≥ data.size then []
+      else
+        let cands := [i, 1, 2, 3, 4, 6, 8, 12, 16, 24, 32, 64, 128].filter fun d => 1 ≤ d ∧ d ≤ i
+        let best := cands.foldl (fun (b : Nat × Nat) d =>
+          let l := matchLen data i d 200
+          if l > b.1 then (l, d) else b) (0, 0)
+        if best.1 ≥ 3 then
+          let dc := if overlong ∧ best.2 == i then i + 6 + i % 50 else best.2 - 1
+          .copy (ctxAt i) best.1 dc :: go fuel (i + best.1)
+        else .lit (ctxAt i) (data.getD i 0) :: go fuel (i + 1)
+  go (data.size + 1) 0
+
 /-- the ICC part of the codestream (`read_icc`, jxl-color/src/icc/decode.rs): `enc_size` as U64,
 an entropy-coded stream of `enc_size` bytes over 41 contexts chosen by `get_icc_ctx`.
-`encoded` is the output of the ICC command encoder (`Jxl.Icc.encodeIcc`). -/
-def iccStreamBits (ansCoder : Bool) (encoded : List Nat) : List Bool :=
+`encoded` is the output of the ICC command encoder (`Jxl.Icc.encodeIcc`).
+`coder`: 0 prefix · 1 ANS · 2/3 the same with LZ77 · 4/5 LZ77 with over-long distances.
+Falls back to the plain form when the LZ77 plan cannot express the items. -/
+def iccStreamBits (coder : Nat) (encoded : List Nat) : List Bool :=
   let w0 : BW := #[]
   let w := w0.u64 encoded.length
   let step := fun (st : List Jxl.Enc.Item × Nat × Nat × Nat) (b : Nat) =>
     let (acc, idx, b1, b2) := st
     (.lit (Jxl.Icc.getIccCtx idx b1 b2) b :: acc, idx + 1, b, b1)
-  let items := (encoded.foldl step ([], 0, 0, 0)).1.reverse
-  let kind : CoderKind := if ansCoder then .ans 8 else .prefix
-  let plan := (autoPlan kind 41).resolve items
-  (w.bits (encodeHeader plan ++ encodeItems plan items)).toList
+  let plain := (encoded.foldl step ([], 0, 0, 0)).1.reverse
+  let kind : CoderKind := if coder % 2 == 1 then .ans 8 else .prefix
+  let plainPlan := (autoPlan kind 41).resolve plain
+  let plainBits := (w.bits (encodeHeader plainPlan ++ encodeItems plainPlan plain)).toList
+  if coder < 2 then plainBits
+  else
+    let items := iccLzItems (coder ≥ 4) encoded.toArray
+    let lz : Jxl.Entropy.Lz77Params := { minSymbol := 224, minLength := 3, lenConf := ⟨0, 0, 0⟩ }
+    let plan := (autoPlan kind 41 (some lz)).resolve items
+    if plan.check items ∧ expandItems 0 items == encoded then
+      (w.bits (encodeHeader plan ++ encodeItems plan items)).toList
+    else plainBits
 
 def sizeDist : List Dist := [.bits 1 9, .bits 1 13, .bits 1 18, .bits 1 30]
 
